@@ -122,6 +122,9 @@ func (v *Vue) evalFor(ctx VueContext, node *html.Node, expr string, depth int) (
 	err = ctx.stack.ForEach(collectionName, func(index int, value any) error {
 		iterNode := helpers.DeepCloneNode(node)
 		helpers.RemoveAttr(iterNode, "v-for")
+		// a looped v-else-if / v-else member was selected by its chain: its instances are not stray chain members
+		helpers.RemoveAttr(iterNode, "v-else-if")
+		helpers.RemoveAttr(iterNode, "v-else")
 
 		ctx.stack.Push(nil)
 
